@@ -88,6 +88,35 @@ func (v *PacketDslFormattor) getHiddenRightAtSameLine(token antlr.Token) string 
 	return strings.TrimRight(sb.String(), "\n")
 }
 
+// getHiddenRight returns every not yet emitted comment that follows token, one per line.
+func (v *PacketDslFormattor) getHiddenRight(token antlr.Token) string {
+	hidden := v.tokenStream.GetHiddenTokensToRight(token.GetTokenIndex(), antlr.TokenHiddenChannel)
+	if hidden == nil {
+		return ""
+	}
+	var sb strings.Builder
+	for _, t := range hidden {
+		if t.GetTokenType() == gen.PacketDslParserLINE_COMMENT {
+			if _, ok := v.lineComments[t]; ok {
+				continue
+			}
+			v.lineComments[t] = struct{}{}
+			sb.WriteString(t.GetText())
+			sb.WriteString("\n")
+		}
+	}
+	return sb.String()
+}
+
+// commentLinesBefore returns the comments in front of token as indented lines of a block ("" if there are none).
+func (v *PacketDslFormattor) commentLinesBefore(token antlr.Token) string {
+	comments := strings.TrimRight(v.getHiddenLeft(token), "\n")
+	if comments == "" {
+		return ""
+	}
+	return AddIndent4ln(comments)
+}
+
 // VisitPacket overrides the default implementation for protocol definitions.
 func (v *PacketDslFormattor) VisitPacket(ctx *gen.PacketContext) interface{} {
 	var formattedDsl strings.Builder
@@ -117,6 +146,11 @@ func (v *PacketDslFormattor) VisitPacket(ctx *gen.PacketContext) interface{} {
 	}
 	if ctx.GetStop() != nil {
 		formattedDsl.WriteString(v.getHiddenRightAtSameLine(ctx.GetStop()))
+		// comments after the last declaration
+		if rest := v.getHiddenRight(ctx.GetStop()); rest != "" {
+			formattedDsl.WriteString("\n")
+			formattedDsl.WriteString(rest)
+		}
 	}
 	return formattedDsl.String()
 }
@@ -142,6 +176,7 @@ func (v *PacketDslFormattor) VisitPacketDefinition(ctx *gen.PacketDefinitionCont
 		}
 	}
 
+	formattedDsl.WriteString(v.commentLinesBefore(ctx.GetStop()))
 	formattedDsl.WriteString("}")
 	formattedDsl.WriteString(v.getHiddenRightAtSameLine(ctx.GetStop()))
 	return formattedDsl.String()
@@ -152,6 +187,7 @@ func (v *PacketDslFormattor) VisitFieldDefinitionWithAttribute(ctx *gen.FieldDef
 	var formattedDsl strings.Builder
 	if len(ctx.AllFieldAttribute()) > 0 {
 		for _, fieldAttr := range ctx.AllFieldAttribute() {
+			formattedDsl.WriteString(v.getHiddenLeft(fieldAttr.GetStart()))
 			switch {
 			case fieldAttr.CalculatedFromAttribute() != nil:
 				formattedDsl.WriteString(v.VisitCalculatedFromAttribute(fieldAttr.CalculatedFromAttribute().(*gen.CalculatedFromAttributeContext)).(string))
@@ -202,6 +238,7 @@ func (v *PacketDslFormattor) VisitOptionDefinition(ctx *gen.OptionDefinitionCont
 			formattedDsl.WriteString(AddIndent4ln(v.VisitOptionDeclaration(d).(string)))
 		}
 	}
+	formattedDsl.WriteString(v.commentLinesBefore(ctx.GetStop()))
 	formattedDsl.WriteString("}")
 	formattedDsl.WriteString(v.getHiddenRightAtSameLine(ctx.GetStop()))
 	return formattedDsl.String()
@@ -282,6 +319,7 @@ func (v *PacketDslFormattor) VisitInerObjectField(ctx *gen.InerObjectFieldContex
 		formattedDsl.WriteString(AddIndent4ln(result))
 	}
 
+	formattedDsl.WriteString(v.commentLinesBefore(inerObjectDeclaration.GetStop()))
 	formattedDsl.WriteString("},")
 	return formattedDsl.String()
 }
@@ -289,6 +327,7 @@ func (v *PacketDslFormattor) VisitInerObjectField(ctx *gen.InerObjectFieldContex
 // VisitMetaDataDefinition overrides the default implementation for metadata definitions.
 func (v *PacketDslFormattor) VisitMetaDataDefinition(ctx *gen.MetaDataDefinitionContext) interface{} {
 	var formattedDsl strings.Builder
+	formattedDsl.WriteString(v.getHiddenLeft(ctx.GetStart()))
 	metaName := ctx.IDENTIFIER().GetText()
 	formattedDsl.WriteString(fmt.Sprintf("MetaData %s {\n", metaName))
 
@@ -305,7 +344,9 @@ func (v *PacketDslFormattor) VisitMetaDataDefinition(ctx *gen.MetaDataDefinition
 		}
 	}
 
+	formattedDsl.WriteString(v.commentLinesBefore(ctx.GetStop()))
 	formattedDsl.WriteString("}")
+	formattedDsl.WriteString(v.getHiddenRightAtSameLine(ctx.GetStop()))
 	return formattedDsl.String()
 }
 
@@ -340,6 +381,7 @@ func (v *PacketDslFormattor) VisitCheckSumFieldDeclaration(ctx *gen.CheckSumFiel
 // VisitMetaDataDeclaration for visiting metadata declarations.
 func (v *PacketDslFormattor) VisitMetaDataDeclaration(ctx *gen.MetaDataDeclarationContext) interface{} {
 	var formattedDsl strings.Builder
+	formattedDsl.WriteString(v.getHiddenLeft(ctx.GetStart()))
 	typeName := ""
 	if ctx.Type_() != nil {
 		typeName = ctx.Type_().GetText()
@@ -360,6 +402,7 @@ func (v *PacketDslFormattor) VisitMetaDataDeclaration(ctx *gen.MetaDataDeclarati
 // VisitRefMetaDataDeclaration for visiting referenced metadata declarations.
 func (v *PacketDslFormattor) VisitRefMetaDataDeclaration(ctx *gen.RefMetaDataDeclarationContext) interface{} {
 	var formattedDsl strings.Builder
+	formattedDsl.WriteString(v.getHiddenLeft(ctx.GetStart()))
 	typeName := ctx.GetTyp().GetText()
 	fieldName := ctx.GetName().GetText()
 	description := ""
@@ -415,6 +458,7 @@ func (v *PacketDslFormattor) VisitMatchFieldDeclaration(ctx *gen.MatchFieldDecla
 			formattedDsl.WriteString(AddIndent4ln(lineComment))
 		}
 	}
+	formattedDsl.WriteString(v.commentLinesBefore(ctx.GetStop()))
 	formattedDsl.WriteString("}")
 	return formattedDsl.String()
 }
